@@ -1389,7 +1389,9 @@ class Interp:
         impls = self._resolve(o, attr + ".setter")
         if impls is not None and all(v is not None for v in impls.values()):
             fi = self._dispatch(o, attr + ".setter", impls)
-            self.call_function(fi, [o, val], {}, node)
+            from . import lib
+
+            lib.call_with_contract(self, fi, o, [o, val], {}, node)
             return
         groups = [g for g in self._attr_groups(o, attr, node) if g[0] == "field"]
         if len(groups) != 1:
